@@ -130,9 +130,9 @@ func (e *Env) Observe() string {
 	var b strings.Builder
 	for i := range e.E3 {
 		s, err := e.E3[i].Encode()
-		fmt.Fprintf(&b, "%v %v %q %v %s|", e.E3[i].Score(), e.E3[i].Severity(), s, err, dump.Of(e.E3[i]))
+		fmt.Fprintf(&b, "%v %v %q %v %s|", Z(e.E3[i].Score()), e.E3[i].Severity(), s, err, dump.Of(e.E3[i]))
 		s2, err2 := e.E2[i].Encode()
-		fmt.Fprintf(&b, "%v %v %q %v %s|", e.E2[i].Score(), e.E2[i].Severity(), s2, err2, dump.Of(e.E2[i]))
+		fmt.Fprintf(&b, "%v %v %q %v %s|", Z(e.E2[i].Score()), e.E2[i].Severity(), s2, err2, dump.Of(e.E2[i]))
 	}
 	return b.String()
 }
@@ -225,7 +225,7 @@ var Ops = []Op{
 				return "error: " + err.Error()
 			}
 			s, _ := m.Encode()
-			return fmt.Sprint(m.Score(), m.Severity(), s, dump.Of(m))
+			return fmt.Sprint(Z(m.Score()), m.Severity(), s, dump.Of(m))
 		}
 	}},
 	{"v3 decode rejected", false, func(e *Env, slot int) func() string {
@@ -253,7 +253,7 @@ var Ops = []Op{
 	{"v3 Score", true, func(e *Env, slot int) func() string {
 		return func() string {
 			m := e.E3[slot]
-			return fmt.Sprint(m.Score(), m.TemporalMetrics().Score(), m.BaseMetrics().Score())
+			return fmt.Sprint(Z(m.Score()), Z(m.TemporalMetrics().Score()), Z(m.BaseMetrics().Score()))
 		}
 	}},
 	{"v3 Severity", true, func(e *Env, slot int) func() string {
@@ -329,7 +329,7 @@ var Ops = []Op{
 				return "error: " + err.Error()
 			}
 			s, _ := m.Encode()
-			return fmt.Sprint(m.Score(), m.Severity(), s, dump.Of(m))
+			return fmt.Sprint(Z(m.Score()), m.Severity(), s, dump.Of(m))
 		}
 	}},
 	{"v2 decode rejected", false, func(e *Env, slot int) func() string {
@@ -357,7 +357,7 @@ var Ops = []Op{
 	{"v2 Score", true, func(e *Env, slot int) func() string {
 		return func() string {
 			m := e.E2[slot]
-			return fmt.Sprint(m.Score(), m.Temporal.Score(), m.Base.Score(), m.Severity())
+			return fmt.Sprint(Z(m.Score()), Z(m.Temporal.Score()), Z(m.Base.Score()), m.Severity())
 		}
 	}},
 	{"v2 Encode/String", true, func(e *Env, slot int) func() string {
@@ -382,7 +382,7 @@ var bulkOps = []Op{
 					b.WriteString("error: " + err.Error() + ";")
 					continue
 				}
-				fmt.Fprint(&b, m.Score(), m.String(), ";")
+				fmt.Fprint(&b, Z(m.Score()), m.String(), ";")
 			}
 			return b.String()
 		}
@@ -393,7 +393,7 @@ var bulkOps = []Op{
 			if err != nil {
 				return "error: " + err.Error()
 			}
-			return fmt.Sprint(m.Score(), m.String())
+			return fmt.Sprint(Z(m.Score()), m.String())
 		}
 	}},
 	{Name: "v2 base decode x20 (distinct vectors)", Make: func(e *Env, slot int) func() string {
@@ -405,7 +405,7 @@ var bulkOps = []Op{
 					b.WriteString("error: " + err.Error() + ";")
 					continue
 				}
-				fmt.Fprint(&b, m.Score(), m.String(), ";")
+				fmt.Fprint(&b, Z(m.Score()), m.String(), ";")
 			}
 			return b.String()
 		}
@@ -416,7 +416,7 @@ var bulkOps = []Op{
 			if err != nil {
 				return "error: " + err.Error()
 			}
-			return fmt.Sprint(m.Score(), m.String())
+			return fmt.Sprint(Z(m.Score()), m.String())
 		}
 	}},
 	{Name: "v3 base report export x20, each reader drained after the next export", Make: func(e *Env, slot int) func() string {
@@ -461,6 +461,95 @@ var bulkOps = []Op{
 			var nb *v2.Base
 			m2, err2 := nb.Decode([]string{"AV:Q", "AV", "ZZ:N"}[e.K(slot)%3])
 			return fmt.Sprint(m == nil, errStr(err), m2 == nil, errStr(err2))
+		}
+	}},
+	{Name: "v3 decode, assign fields of the own object, score", Make: func(e *Env, slot int) func() string {
+		return func() string {
+			// inputs by K (identical in twin mode), the assignments by slot: objects that two threads
+			// obtained from one input text must still be independent of each other (round 6,
+			// C02-B-r6: concurrent identical decodes coalesced, followers get a shallow copy)
+			m, err := v3.NewEnvironmental().Decode(vec3[e.K(slot)%len(vec3)])
+			if err != nil {
+				return "error: " + err.Error()
+			}
+			Pause()
+			m.BaseMetrics().AV = v3.GetAttackVector([]string{"P", "N", "L"}[slot%3])
+			m.TemporalMetrics().RL = v3.GetRemediationLevel([]string{"O", "U", "W"}[slot%3])
+			m.MC = v3.GetModifiedConfidentialityImpact([]string{"N", "H", "L"}[slot%3])
+			Pause()
+			s, _ := m.Encode()
+			return fmt.Sprint(Z(m.Score()), Z(m.TemporalMetrics().Score()), Z(m.BaseMetrics().Score()), s)
+		}
+	}},
+	{Name: "v2 decode, assign fields of the own object, score", Make: func(e *Env, slot int) func() string {
+		return func() string {
+			m, err := v2.NewEnvironmental().Decode(vec2[e.K(slot)%len(vec2)])
+			if err != nil {
+				return "error: " + err.Error()
+			}
+			Pause()
+			m.Base.AV = v2.GetAccessVector([]string{"L", "N", "A"}[slot%3])
+			m.Temporal.RL = v2.GetRemediationLevel([]string{"OF", "U", "W"}[slot%3])
+			m.CDP = v2.GetCollateralDamagePotential([]string{"N", "H", "L"}[slot%3])
+			Pause()
+			s, _ := m.Encode()
+			return fmt.Sprint(Z(m.Score()), Z(m.Temporal.Score()), Z(m.Base.Score()), s)
+		}
+	}},
+	{Name: "v3 ExportWith(reader) of a 70 KiB template", Make: func(e *Env, slot int) func() string {
+		return func() string {
+			// a template larger than any plausible small-template window (round 6, C16-B-r6: large
+			// templates staged in one shared spill buffer and handed on without a copy)
+			m, err := v3.NewBase().Decode(bulkVec3(e.K(slot), 9))
+			if err != nil {
+				return "error: " + err.Error()
+			}
+			k := e.K(slot)
+			text := fmt.Sprintf("%d:{{.Vector}} ", k) + strings.Repeat(fmt.Sprintf("{{/* filler %d */}}", k), 5000) + " {{.BaseScore}} " + strings.Repeat(string(rune('a'+k)), 200)
+			r, err := report.NewBase(m).ExportWith(strings.NewReader(text))
+			if err != nil {
+				return "error: " + err.Error()
+			}
+			Pause()
+			b, _ := io.ReadAll(r)
+			return string(b)
+		}
+	}},
+	{Name: "v3 base report export x150 (distinct templates)", Make: func(e *Env, slot int) func() string {
+		return func() string {
+			// more distinct templates than a bounded cache of 128 parsed templates holds (round 6,
+			// C16-A-r6: a slot claimed before parsing and filled after it was recycled)
+			m, err := v3.NewBase().Decode(bulkVec3(e.K(slot), 11))
+			if err != nil {
+				return "error: " + err.Error()
+			}
+			rep := report.NewBase(m)
+			var b strings.Builder
+			for k := 0; k < 150; k++ {
+				r, err := rep.ExportWithString(fmt.Sprintf("%d/%d {{.Vector}} {{.BaseScore}}", e.K(slot), k))
+				if err != nil {
+					b.WriteString("error: " + err.Error() + ";")
+					continue
+				}
+				x, _ := io.ReadAll(r)
+				b.Write(x)
+				b.WriteString(";")
+			}
+			return b.String()
+		}
+	}},
+	{Name: "v3 base report export of one template (also exported by the x150 thread)", Make: func(e *Env, slot int) func() string {
+		return func() string {
+			m, err := v3.NewBase().Decode(bulkVec3(e.K(slot), 11))
+			if err != nil {
+				return "error: " + err.Error()
+			}
+			r, err := report.NewBase(m).ExportWithString(fmt.Sprintf("victim of slot %d {{.Vector}} {{.BaseScore}} {{.AVValue}}", e.K(slot)))
+			if err != nil {
+				return "error: " + err.Error()
+			}
+			x, _ := io.ReadAll(r)
+			return string(x)
 		}
 	}},
 	{Name: "v3 base report export, reader drained after a pause", Make: func(e *Env, slot int) func() string {
@@ -560,7 +649,7 @@ func Twins() []Scenario {
 		}
 		out = append(out, Scenario{Ops[d].Name + " x3" + twinSuffix, []int{d, d, d}, false})
 	}
-	for _, n := range []string{"v3 base decode (one vector)", "v2 base decode (one vector)", "v3 base report export, reader drained after a pause"} {
+	for _, n := range []string{"v3 base decode (one vector)", "v2 base decode (one vector)", "v3 base report export, reader drained after a pause", "v3 decode, assign fields of the own object, score", "v2 decode, assign fields of the own object, score", "v3 ExportWith(reader) of a 70 KiB template"} {
 		a := opIndex(n)
 		out = append(out, Scenario{n + " || the same" + twinSuffix, []int{a, a}, false})
 	}
@@ -591,6 +680,11 @@ func Bulk() []Scenario {
 		{"v2 base decode x20 || v2 base decode (one vector) [distinct objects]", []int{ix("v2 base decode x20 (distinct vectors)"), ix("v2 base decode (one vector)")}, false},
 		{"v3 base report export x20 (readers drained late) || v3 base report export, reader drained after a pause [distinct objects]", []int{ix("v3 base report export x20, each reader drained after the next export"), ix("v3 base report export, reader drained after a pause")}, false},
 		{"v3 base report export, reader drained after a pause || the same [distinct objects]", []int{ix("v3 base report export, reader drained after a pause"), ix("v3 base report export, reader drained after a pause")}, false},
+		{"v3 decode, assign own fields, score || the same [distinct objects]", []int{ix("v3 decode, assign fields of the own object, score"), ix("v3 decode, assign fields of the own object, score")}, false},
+		{"v2 decode, assign own fields, score || the same [distinct objects]", []int{ix("v2 decode, assign fields of the own object, score"), ix("v2 decode, assign fields of the own object, score")}, false},
+		{"v3 ExportWith(reader) of a 70 KiB template || the same [distinct objects]", []int{ix("v3 ExportWith(reader) of a 70 KiB template"), ix("v3 ExportWith(reader) of a 70 KiB template")}, false},
+		{"v3 ExportWith(reader) of a 70 KiB template || v3 base report export, reader drained after a pause [distinct objects]", []int{ix("v3 ExportWith(reader) of a 70 KiB template"), ix("v3 base report export, reader drained after a pause")}, false},
+		{"v3 base report export x150 (distinct templates) || v3 base report export of one template [distinct objects]", []int{ix("v3 base report export x150 (distinct templates)"), ix("v3 base report export of one template (also exported by the x150 thread)")}, false},
 	}
 }
 
